@@ -95,7 +95,7 @@ def r1(ctx):
             ctx.check([norm(a) for a in c.args] == [f.params[1]], "C10.R1", f, c, "the event carries the client it was raised for", line=c.lineno)
     # onDisconnect / del pairing in run()
     ods = [c for c in calls_named(run, "onDisconnect")]
-    ctx.expect("C10.R1", "onDisconnect call sites in run", len(ods), 2)
+    ctx.require("C10.R1", run, "onDisconnect call sites in run (connection sweep and shutdown sweep)", len(ods), 2)
     all_od = sorted(f.qual for f, c in package_calls(repo, "onDisconnect"))
     ctx.check(all_od == [RUN, RUN], "C10.R1", run, "callers of onDisconnect", witness=all_od)
     del_nodes = [n for n in cfg.stmts((ast.Delete,)) if norm(n.ast.targets[0]).startswith("self.ctxt.connections[")]
